@@ -202,4 +202,43 @@ def run(ck):
     ck.who_calls("S7.key-lookups-agree", facts, "Ipc::StoreMap::nameByKey",
                  {"Ipc::StoreMap::fileNoByKey": "applies the fileNos relocation", "Ipc::StoreMap::openForUpdating": "records the stale name for the relocation"},
                  min_callers=2, kinds=("call",), why="(that operation would address the pre-relocation anchor)")
+    ck.rule("S8 the two deleters agree (freeEntry marks a busy entry unconditionally): Ipc::StoreMap::freeEntryByKey compares the key on every path -- whichever of "
+            "lockExclusive()/lockShared() succeeded or neither -- and a matching key is answered on every path by freeChain() or waitingToBeFreed = true before the "
+            "function returns. If the no-lock outcome does nothing, an entry deleted while its writer still holds it is opened by later readers")
+    fk = facts.fn(SM + "freeEntryByKey")
+    same = E.m_calls("Ipc::StoreMapAnchor::sameKey")
+    mark = lambda ev: (ev.get("e") == "asg" and E.m_is_mem("waitingToBeFreed")(ev.get("lhs")) and E.const(ev.get("rhs")) == 1) or \
+        (ev.get("e") == "call" and E.strip(ev["x"]).get("f", "").split("::")[-1] in ("freeChain", "compare_exchange_strong", "store", "exchange", "operator="))
+    kfl = ck.flow(fk, track_atoms={"same": same}, track_history=True)
+    for st in ck.sites(kfl, ev_exit(), "function exit", 1):
+        if st.tracked("same") is not None:
+            ck.ok("S8.deleters-agree", st.where(), "freeEntryByKey: the key was compared on this way out")
+        else:
+            ck.violation("S8.deleters-agree", "S8|freeEntryByKey|exit-without-key-test", st.where(), "Ipc::StoreMap::freeEntryByKey can return without having compared the key "
+                         "(no lock outcome): a busy entry with this key is neither freed nor marked waitingToBeFreed, unlike freeEntry(fileno)", kfl.witness(st))
+    ck.require_response("S8.deleters-agree", fk, same, True, mark, "freeChain() | waitingToBeFreed = true", min_edges=2,
+                        why="(a matching entry would survive its deletion)")
+    ck.rule("S9 label consistency in closeForUpdating: the stale anchor's splicingPoint (where freeChainAt() stops freeing the stale prefix, i.e. the first slice the "
+            "fresh chain shares) is taken from the *stale* edition (update.stale.splicingPoint); with the fresh edition's value freeChainAt() never meets its stop "
+            "slice and frees the suffix the published fresh entry -- and its readers -- still use")
+    cu = facts.fn(SM + "closeForUpdating")
+    nsp = 0
+    for b in cu.blocks.values():
+        for ev in b["ev"]:
+            lhs = rhs = None
+            if ev.get("e") == "asg" and ev.get("op") == "=":
+                lhs, rhs = ev.get("lhs"), ev.get("rhs")
+            elif ev.get("e") == "call" and E.strip(ev["x"]).get("f", "").split("::")[-1] in ("operator=", "store") and len(E.strip(ev["x"]).get("a", [])) >= 1 and "o" in E.strip(ev["x"]):
+                lhs, rhs = E.strip(ev["x"])["o"], E.strip(ev["x"])["a"][0]       # std::atomic assignment
+            if lhs is not None and E.m_is_mem("splicingPoint")(lhs) and any(n.get("k") == "mem" and n.get("m", "").endswith("::anchor") for n in E.walk(lhs)):
+                nsp += 1
+                eds = lambda t: sorted({n["m"].split("::")[-1] for n in E.walk(t) if n.get("k") == "mem" and n["m"].split("::")[-1] in ("stale", "fresh")})
+                l, r = eds(lhs), eds(rhs)
+                if l == r and len(l) == 1 and E.m_is_mem("splicingPoint")(rhs):
+                    ck.ok("S9.splice-label", cu.where(ev["l"]), "closeForUpdating: update.%s.anchor->splicingPoint = update.%s.splicingPoint" % (l[0], r[0]))
+                else:
+                    ck.violation("S9.splice-label", "S9|closeForUpdating|splicingPoint|%s<-%s" % ("+".join(l), "+".join(r) or "other"), cu.where(ev["l"]),
+                                 "closeForUpdating stores %s into the %s anchor's splicingPoint: the stop slice of the chain being freed must be that same edition's" % (E.key(rhs)[:80], "/".join(l)))
+    ck.need(nsp >= 1, "C55: closeForUpdating no longer records the stale anchor's splicingPoint")
+
     ck.assume("visibility/ordering of the index across processes is not decided; per-anchor aliasing (which anchor a lock belongs to) is not tracked")
